@@ -51,8 +51,14 @@ func (fr *Frame) recordResults(st *State, c *ssa.CallCommon, res ssa.Value) {
 	}
 	rs := c.Signature().Results()
 	put := func(i int, x Val) {
-		if _, ok := sortIsInt(rs.At(i).Type()); ok && x.Loc == nil && x.T != "" {
+		if x.Loc != nil || x.T == "" {
+			return
+		}
+		if _, ok := sortIsInt(rs.At(i).Type()); ok {
 			v.setHeap(st, v.ghostKey(fmt.Sprintf("lastres!%s!%d", callee, i), "Int"), x.T)
+		} else if v.smt.sortOf(rs.At(i).Type()) == "Iface" {
+			// error (interface) results: lastres(F, i, error)
+			v.setHeap(st, v.ghostKey(fmt.Sprintf("lastres!%s!%d", callee, i), "Iface"), x.T)
 		}
 	}
 	if rs.Len() == 1 {
@@ -1031,6 +1037,7 @@ func (fr *Frame) siteAssertsCall(st *State, c *ssa.CallCommon, args []Val, pos t
 		o.Extra = extra
 		o.Group = as.Cl.Group
 		v.siteCover(st, o)
+		v.anteCovers(st, env, o, as.Cl.Expr, "")
 		v.assertHits[as.Label]++
 	}
 }
@@ -1089,6 +1096,10 @@ func (fr *Frame) siteAsserts(st *State, kind string, addr ssa.Value, args []Val,
 		env.atSite = true
 		if elemIdx != nil {
 			env = env.bind("idx", *elemIdx).bind("v", *elemVal)
+		} else if kind == "store" && len(args) == 2 {
+			// field store: v = the value written, prev = the value it replaces
+			ft := sT.Field(fa.Field).Type()
+			env = env.bind("v", specVal{t: args[0].T, typ: ft, st: st}).bind("prev", specVal{t: args[1].T, typ: ft, st: st})
 		}
 		g, extra := env.boolTerm(as.Cl.Expr)
 		v.siteCount["assert."+as.Label]++
@@ -1096,6 +1107,7 @@ func (fr *Frame) siteAsserts(st *State, kind string, addr ssa.Value, args []Val,
 		o.Extra = extra
 		o.Group = as.Cl.Group
 		v.siteCover(st, o)
+		v.anteCovers(st, env, o, as.Cl.Expr, "")
 		v.assertHits[as.Label]++
 	}
 }
@@ -1309,6 +1321,7 @@ func (fr *Frame) siteAssertsNamed(st *State, kind string, pos token.Pos) {
 		o.Extra = extra
 		o.Group = as.Cl.Group
 		v.siteCover(st, o)
+		v.anteCovers(st, env, o, as.Cl.Expr, "")
 		v.assertHits[as.Label]++
 	}
 }
